@@ -37,9 +37,20 @@ JOBS["C20"] = [
     H("dbstate", "pure", "^TestC20DBState$", {"shards": 4, "checks": 1000, "timeout": 900}, {"shards": 14, "checks": 20000, "timeout": 3400}),
 ]
 
+JOBS["C18"] = [
+    H("exhaustive", "store", "^TestC18Exhaustive$", {"shards": 6, "checks": 1, "timeout": 900, "env": {"VERIF_C18_L": 4}}, {"shards": 6, "checks": 1, "timeout": 3400, "env": {"VERIF_C18_L": 6}}),
+    H("random", "store", "^TestC18Random$", {"shards": 8, "checks": 2500, "timeout": 900}, {"shards": 14, "checks": 120000, "timeout": 3400}),
+]
+
 LEVELS = {"C13": "fault_enumeration"}
 
 RULES = {
+    "C18": "exhaustive part: for each back-end (bolt trimmed, trimmed+previous-required, untrimmed, untrimmed+previous-required, memdb ring of 10 empty, ring of 10 pre-filled to capacity) every Put/Del sequence "
+           "over a 4-round alphabet up to length L (quick 4, thorough 6), each followed by every observation: Get of each round and a neighbour, Last, Len and every cursor session body of length <=3 over "
+           "{First, Next, Last, Seek(r)} (399 bodies); random part: rapid state machine of 100s of ops over rounds 0..40 (append, put with gaps / re-put, delete, get, last, len, reopen (bolt), "
+           "cursor sessions of <=8 steps incl. Put/Del inside the open session for memdb, full First/Next scans). Oracle: reference sorted map (bolt: put replaces; ring: put keeps, only the 10 largest remain; "
+           "trimmed: previous signature = stored signature of round-1 or the read fails). Non-trivial: sequence with a delete, re-put or gap (exhaustive) / a cursor after a mutation or a mutation inside a session (random); "
+           "distinct by back-end + full operation sequence.",
     "C17": "rapid-generated groups over the 5 schemes (1..10 nodes, dense or sparse indices, threshold in [n/2+1,n], with/without distributed key, "
            "transition time, id in {'', default, custom}, period up to 2^31 s, genesis seed computed / 32 random bytes / other lengths) and the chain Info derived from them; "
            "per case one drawn single-field perturbation (chain hash: period±1s, genesis±1, key, seed bit/extend/truncate, id; group hash: node key, index, index swap, threshold, genesis, "
@@ -59,6 +70,7 @@ RULES = {
 }
 
 ASSUMPTIONS = {
+    "C18": ["bbolt itself is correct", "postgres back-end not reachable offline (not covered)", "signatures are non-empty byte strings"],
     "C17": ["kyber point marshalling is injective", "sha256 / blake2b collisions are not produced by single-field changes"],
     "C20": ["values are those the system can produce (scheme set, threshold in range, non-zero genesis and period for the protobuf path)", "nil and empty byte strings are the same value"],
     "C16": ["math/big arithmetic is correct", "period is a whole number of seconds (as the property states)"],
